@@ -51,7 +51,7 @@ def main():
                 if chk not in built:
                     print('%-6s %s: check not built yet' % (sid, chk))
                     continue
-                cmd = [os.path.join(VERIF, 'check'), chk, '--tier', args.tier, '--no-selfcheck']
+                cmd = [os.path.join(VERIF, 'check'), chk, '--tier', args.tier, '--no-selfcheck', '--no-evidence']
                 if args.runs:
                     cmd += ['--runs', str(args.runs)]
                 r = subprocess.run(cmd, env=env, capture_output=True, text=True)
